@@ -154,7 +154,7 @@ def ctmap(m, f):
 
 def cpayload(op, ob, sdk):
     o, r = op['op'], ob['r']
-    if o == 'update' and r == 'CondFailed' and sdk == 'v2':
+    if o in ('update', 'put', 'delete') and r == 'CondFailed' and sdk == 'v2':
         return '(PCondItem %s)' % citem(ob.get('cf_item') or {})
     if r != 'ok':
         return 'PNone'
